@@ -22,7 +22,8 @@ func init() {
 				"(dispatch) bfe_proxy.Read only Peeks before a signature matched, compares the peeked prefix of the signature's full length with SIGV1/SIGV2 (whose bytes equal the specification), calls parseVersion1/2 only under the matching comparison and reports ErrNoProxyProtocol only after both signatures compared unequal. " +
 				"(v1) parseVersion1 succeeds only behind the CRLF test, the token-count test and an err==nil test of each of the four field validators, fields come from tokens 2..5 in specification order, TCP4/TCP6 map to TCPv4/TCPv6; parseV1PortNumber narrows to uint16 only under 0<=v<=65535 on success paths; parseV1IPAddress returns an error whenever net.ParseIP fails for TCP4 and TCP6. " +
 				"(conn) every non-nil error return of Conn.checkProxyHeader lies behind p.Close() and a store to p.headerErr; headerErr/srcAddr/dstAddr are written only there, srcAddr/dstAddr derive from the header's source/destination fields; Conn.Read hands out buffered bytes only after checkProxyHeaderOnce and under headerErr == nil, address getters read srcAddr/dstAddr only after checkProxyHeaderOnce; the header byte limit and read deadline are lifted by a deferred function on every exit; bufReader wraps the LimitedReader that wraps the socket; checkProxyHeader is called from the once-closure only. " +
-				"Not covered: numerical correctness of address decoding (binary.Read), split deliveries (blocking behaviour of Peek), TLV contents, absence of panics for arbitrary bytes, the timeout path of ReadTimeout.",
+				"Robustness: guards are read through named booleans, negations and phi-merged `a && b` / `a || b` values and through the call site of a private helper; the v2 address block may be decoded in a private helper of parseVersion2 (region), values are followed through helper parameters/results; a mismatch of a single peeked byte with the signature byte at the same index counts as `signature compared unequal` (never as a match). " +
+				"Not covered: numerical correctness of address decoding (binary.Read), a success return of parseVersion2 that itself sits inside an extracted helper (the return census is per function), split deliveries (blocking behaviour of Peek), TLV contents, absence of panics for arbitrary bytes, the timeout path of ReadTimeout.",
 			RuleText:    "obligations = each success return of parseVersion2 x {length read, drain, lookups}, each Header field store, each validateLength return, each predicate, each reader call and signature comparison in Read, each validator call/field store/return in the v1 parser, each error return / writer / reader site of Conn, each specification table row",
 			Assumptions: []string{"binary.Read decodes struct fields in declaration order, big endian (encoding/binary contract)", "bfe_bufio.Reader.Peek does not consume; Reader.Read after a successful Peek(n) returns the buffered bytes"},
 		},
@@ -44,6 +45,9 @@ func init() {
 			{Name: "src-from-dst", File: "bfe_proxy/conn.go", Old: "srcAddr := net.JoinHostPort(hdr.SourceAddress.String(), fmt.Sprintf(\"%d\", hdr.SourcePort))", New: "srcAddr := net.JoinHostPort(hdr.DestinationAddress.String(), fmt.Sprintf(\"%d\", hdr.SourcePort))", Expect: "addr-flow"},
 			{Name: "silent-reorder-close-and-store", File: "bfe_proxy/conn.go", Old: "		p.Close()\n		p.headerErr = err\n		return err", New: "		p.headerErr = err\n		p.Close()\n		return err", Silent: true},
 			{Name: "silent-rename-local", File: "bfe_proxy/v1.go", Old: "	pval, err := strconv.Atoi(portStr)\n	if err == nil {\n		if pval < 0 || pval > 65535 {\n			err = ErrInvalidPortNumber\n		}\n		port = uint16(pval)", New: "	value, err := strconv.Atoi(portStr)\n	if err == nil {\n		if value > 65535 || value < 0 {\n			err = ErrInvalidPortNumber\n		}\n		port = uint16(value)", Silent: true},
+			{Name: "silent-named-bool-keep", File: "bfe_proxy/conn.go", Old: "	if hdr.Command.IsLocal() || hdr.TransportProtocol.IsUnspec() {\n		return nil\n	}", New: "	keepSocket := hdr.Command.IsLocal() || hdr.TransportProtocol.IsUnspec()\n	if keepSocket {\n		return nil\n	}", Silent: true},
+			{Name: "silent-first-byte-compare", File: "bfe_proxy/header.go", Old: "	if !bytes.Equal(b1[:1], SIGV1[:1]) && !bytes.Equal(b1[:1], SIGV2[:1]) {\n", New: "	if b1[0] != SIGV1[0] && b1[0] != SIGV2[0] {\n", Silent: true},
+			{Name: "silent-v1-addr-named-bools", File: "bfe_proxy/v1.go", Old: "	if (protocol == TCPv4 && tryV4 == nil) || (protocol == TCPv6 && (addr == nil || tryV4 != nil)) {\n", New: "	wrongV4 := protocol == TCPv4 && tryV4 == nil\n	wrongV6 := protocol == TCPv6 && (addr == nil || tryV4 != nil)\n	if wrongV4 || wrongV6 {\n", Silent: true},
 		},
 	})
 }
@@ -51,6 +55,7 @@ func init() {
 const c46pkg = "bfe_proxy"
 
 func runC46(c *core.Ctx) {
+	defer nxEnter(c)()
 	if c.P.Pkg(c46pkg) == nil {
 		c.Missing(c46pkg)
 		return
@@ -67,7 +72,11 @@ func runC46(c *core.Ctx) {
 // c46lenCells: local uint16 cells filled by encoding/binary.Read (the wire length).
 func c46lenCells(fn *ssa.Function) (cells map[*ssa.Alloc]bool, reads []ssa.Instruction) {
 	cells = map[*ssa.Alloc]bool{}
-	for _, call := range core.Calls(fn, "encoding/binary.Read") {
+	var calls []ssa.CallInstruction
+	for _, g := range nxRegion(fn) {
+		calls = append(calls, core.Calls(g, "encoding/binary.Read")...)
+	}
+	for _, call := range calls {
 		args := call.Common().Args
 		if len(args) != 3 {
 			continue
@@ -105,16 +114,16 @@ func c46v2(c *core.Ctx) {
 		return
 	}
 	cells, lenReads := c46lenCells(fn)
-	isLenRead := func(in ssa.Instruction) bool {
+	isLenRead := core.LiftMust(func(in ssa.Instruction) bool {
 		for _, r := range lenReads {
 			if r == in {
 				return true
 			}
 		}
 		return false
-	}
+	}, 3)
 	// drains: consuming calls whose amount derives from the wire length
-	isDrain := func(in ssa.Instruction) bool {
+	isDrain0 := func(in ssa.Instruction) bool {
 		call, ok := in.(ssa.CallInstruction)
 		if !ok {
 			return false
@@ -135,13 +144,15 @@ func c46v2(c *core.Ctx) {
 		}
 		return false
 	}
+	// a private helper that drains on all of its paths drains
+	isDrain := core.LiftMust(isDrain0, 3)
 	ords := map[string]int{}
 	for _, r := range nxSuccessReturns(fn, 1) {
 		rv := core.RetVals(r)
 		if isNilConst(rv[0]) {
 			continue
 		}
-		local := core.HasGuard(r.Block(), func(g core.Guard) bool {
+		local := nxHolds(r.Block(), func(g core.Guard) bool {
 			call, _ := nxCallResult(g.Cond)
 			return g.Pol && call != nil && core.CallIs(&call.Call, c46pkg+".ProtocolVersionAndCommand.IsLocal")
 		})
@@ -167,7 +178,7 @@ func c46v2(c *core.Ctx) {
 		}
 		c.Check("v2-validated", key+":family", r.Pos(), c46hasLookupGuard(r.Block(), "supportedTransportProtocol"),
 			"success return not guarded by a successful lookup of the family byte in supportedTransportProtocol")
-		okLen := core.HasGuard(r.Block(), func(g core.Guard) bool {
+		okLen := nxHolds(r.Block(), func(g core.Guard) bool {
 			call, _ := nxCallResult(g.Cond)
 			return g.Pol && call != nil && core.CallIs(&call.Call, c46pkg+".Header.validateLength") && len(call.Call.Args) == 2 && c46fromLen(call.Call.Args[1], cells)
 		})
@@ -176,9 +187,9 @@ func c46v2(c *core.Ctx) {
 		// the single Read drain relies on the bytes being buffered: Peek(length) must have succeeded,
 		// unless the drain is a full-read primitive
 		full := nxAllPathsPass(fn, r, func(in ssa.Instruction) bool {
-			return isDrain(in) && !nxIsCall(in, "io.Reader.Read", "bfe_bufio.Reader.Read")
+			return isDrain0(in) && !nxIsCall(in, "io.Reader.Read", "bfe_bufio.Reader.Read")
 		})
-		peeked := core.HasGuard(r.Block(), func(g core.Guard) bool {
+		peeked := nxHolds(r.Block(), func(g core.Guard) bool {
 			bo, ok := g.Cond.(*ssa.BinOp)
 			if !ok {
 				return false
@@ -197,8 +208,8 @@ func c46v2(c *core.Ctx) {
 	c.Min("v2-length-read", 2)
 	c.Min("v2-drain", 3)
 	// size of the drain buffer
-	for _, in := range allInstrs(fn) {
-		if !isDrain(in) || !nxIsCall(in, "io.Reader.Read", "bfe_bufio.Reader.Read") {
+	for _, in := range nxRegionInstrs(fn) {
+		if !isDrain0(in) || !nxIsCall(in, "io.Reader.Read", "bfe_bufio.Reader.Read") {
 			continue
 		}
 		cc := in.(ssa.CallInstruction).Common()
@@ -208,7 +219,11 @@ func c46v2(c *core.Ctx) {
 			"the buffer of the draining Read is not make([]byte, length): fewer than `length` bytes may be consumed")
 	}
 	// the limit reader of the payload is built on the wire length
-	for _, call := range core.Calls(fn, "io.LimitReader") {
+	var limits []ssa.CallInstruction
+	for _, g := range nxRegion(fn) {
+		limits = append(limits, core.Calls(g, "io.LimitReader")...)
+	}
+	for _, call := range limits {
 		n := call.Common().Args[1]
 		if k, ok := nxConstInt(n); ok {
 			c.Check("v2-length-read", "parseVersion2:length-width", call.Pos(), k == 2, fmt.Sprintf("the length field is read through a %d-byte window, the specification says 2 bytes", k))
@@ -219,7 +234,7 @@ func c46v2(c *core.Ctx) {
 	// Header field stores
 	want := map[string]string{"SourceAddress": "Src", "DestinationAddress": "Dst", "SourcePort": "SrcPort", "DestinationPort": "DstPort"}
 	nflow := 0
-	for _, in := range allInstrs(fn) {
+	for _, in := range nxRegionInstrs(fn) {
 		st, ok := in.(*ssa.Store)
 		if !ok {
 			continue
@@ -238,7 +253,7 @@ func c46v2(c *core.Ctx) {
 		if root != nil {
 			rootName = core.TypeStr(root.Type().Underlying().(*types.Pointer).Elem())
 			// the struct was filled by a binary.Read whose error is tested
-			for _, call := range core.Calls(fn, "encoding/binary.Read") {
+			for _, call := range core.Calls(st.Parent(), "encoding/binary.Read") {
 				if a, ok := core.StripConv(call.Common().Args[2]).(*ssa.Alloc); ok && a == root {
 					if v, ok := call.(ssa.Value); ok && nxGuardNilErr(st.Block(), v) && c46fromLen(call.Common().Args[0], cells) {
 						okRead = true
@@ -308,7 +323,7 @@ func c46v2(c *core.Ctx) {
 }
 
 func c46hasLookupGuard(b *ssa.BasicBlock, global string) bool {
-	return core.HasGuard(b, func(g core.Guard) bool {
+	return nxHolds(b, func(g core.Guard) bool {
 		ex, ok := g.Cond.(*ssa.Extract)
 		if !ok || ex.Index != 1 || !g.Pol {
 			return false
@@ -624,6 +639,61 @@ func c46decodeEqual(v ssa.Value) c46cmp {
 	return c46cmp{}
 }
 
+// c46decodeGuard decodes a guard that compares peeked bytes with a signature:
+// bytes.Equal/HasPrefix of slices, or a comparison of one peeked byte with the
+// signature byte at the same index (a mismatch of any byte is a mismatch of
+// the signature; a match of one byte is a match of a 1-byte prefix at most).
+// equal tells which outcome the guard establishes.
+func c46decodeGuard(g core.Guard) (d c46cmp, equal bool) {
+	if d = c46decodeEqual(g.Cond); d.ok {
+		return d, g.Pol
+	}
+	op, x, y, ok := g.Cmp()
+	if !ok || (op != token.EQL && op != token.NEQ) {
+		return c46cmp{}, false
+	}
+	byteAt := func(v ssa.Value) (base ssa.Value, idx int64, ok bool) {
+		u, isU := core.StripConv(v).(*ssa.UnOp)
+		if !isU || u.Op != token.MUL {
+			return nil, 0, false
+		}
+		ia, isIa := u.X.(*ssa.IndexAddr)
+		if !isIa {
+			return nil, 0, false
+		}
+		k, isK := nxConstInt(ia.Index)
+		return ia.X, k, isK
+	}
+	for _, pr := range [][2]ssa.Value{{x, y}, {y, x}} {
+		sb, si, ok1 := byteAt(pr[1])
+		pb, pi, ok2 := byteAt(pr[0])
+		if !ok1 || !ok2 || si != pi || si < 0 {
+			continue
+		}
+		sig, _ := c46sigOf(sb)
+		if sig == "" {
+			continue
+		}
+		if sl, isSl := pb.(*ssa.Slice); isSl && sl.Low == nil {
+			pb = sl.X
+		}
+		pc, ri := nxCallResult(pb)
+		if pc == nil || ri != 0 || !core.CallIs(&pc.Call, "bfe_bufio.Reader.Peek") {
+			continue
+		}
+		n, isK := nxConstInt(pc.Call.Args[1])
+		if !isK || pi >= n {
+			continue
+		}
+		d = c46cmp{sig: sig, sigLen: 0, peekN: n, peekLen: 0, ok: true}
+		if si == 0 {
+			d.sigLen, d.peekLen = 1, 1
+		}
+		return d, op == token.EQL
+	}
+	return c46cmp{}, false
+}
+
 func c46dispatch(c *core.Ctx) {
 	fn := nxFuncOrMissing(c, c46pkg, "Read")
 	if fn == nil {
@@ -671,7 +741,7 @@ func c46dispatch(c *core.Ctx) {
 		for i, call := range calls {
 			in := call.(ssa.Instruction)
 			detail := ""
-			ok := core.HasGuard(in.Block(), func(g core.Guard) bool {
+			ok := nxHolds(in.Block(), func(g core.Guard) bool {
 				d := c46decodeEqual(g.Cond)
 				if !d.ok || !g.Pol || d.sig != w.sig {
 					return false
@@ -700,10 +770,12 @@ func c46dispatch(c *core.Ctx) {
 			continue
 		}
 		neg := map[string]bool{}
-		for _, gd := range core.GuardsAt(r.Block()) {
-			if d := c46decodeEqual(gd.Cond); d.ok && !gd.Pol {
-				neg[d.sig] = true
-			}
+		for _, sig := range []string{"SIGV1", "SIGV2"} {
+			sig := sig
+			neg[sig] = nxHolds(r.Block(), func(gd core.Guard) bool {
+				d, equal := c46decodeGuard(gd)
+				return d.ok && !equal && d.sig == sig
+			})
 		}
 		c.Check("noproxy-return", fmt.Sprintf("Read:return#%d", n), r.Pos(), neg["SIGV1"] && neg["SIGV2"],
 			"Read reports `no PROXY header` although not both signatures were compared unequal on the way: a stream starting like a header would be passed to the application with the header in it; guards: "+nxGuardList(r.Block()))
@@ -743,7 +815,7 @@ func c46v1(c *core.Ctx) {
 		validators := append(core.Calls(fn, c46pkg+".parseV1IPAddress"), core.Calls(fn, c46pkg+".parseV1PortNumber")...)
 		ords := nxOrdinals(fn)
 		sixTokens := func(b *ssa.BasicBlock) bool {
-			return core.HasGuard(b, func(g core.Guard) bool {
+			return nxHolds(b, func(g core.Guard) bool {
 				lb, ok := nxLower(g.Cond, g.Pol, func(x ssa.Value) bool {
 					arg, isLen := nxIsLen(x)
 					if !isLen {
@@ -757,7 +829,7 @@ func c46v1(c *core.Ctx) {
 		}
 		// an arm for the UNKNOWN protocol (addresses to be ignored): guarded by token == "UNKNOWN"
 		unknownArm := func(b *ssa.BasicBlock) bool {
-			return core.HasGuard(b, func(g core.Guard) bool {
+			return nxHolds(b, func(g core.Guard) bool {
 				bo, ok := g.Cond.(*ssa.BinOp)
 				if !ok || !((bo.Op == token.EQL && g.Pol) || (bo.Op == token.NEQ && !g.Pol)) {
 					return false
@@ -810,7 +882,7 @@ func c46v1(c *core.Ctx) {
 					"parseVersion1 can return success although the error of "+ords[in]+" was not tested to be nil: a malformed address/port is accepted")
 			}
 			// CRLF and token count
-			crlf := core.HasGuard(r.Block(), func(g core.Guard) bool {
+			crlf := nxHolds(r.Block(), func(g core.Guard) bool {
 				call, _ := nxCallResult(g.Cond)
 				if call == nil || !g.Pol || !core.CallIs(&call.Call, "strings.HasSuffix") {
 					return false
@@ -826,7 +898,7 @@ func c46v1(c *core.Ctx) {
 			if !unknownArm(r.Block()) {
 				continue
 			}
-			crlf := core.HasGuard(r.Block(), func(g core.Guard) bool {
+			crlf := nxHolds(r.Block(), func(g core.Guard) bool {
 				call, _ := nxCallResult(g.Cond)
 				if call == nil || !g.Pol || !core.CallIs(&call.Call, "strings.HasSuffix") {
 					return false
@@ -1088,7 +1160,7 @@ func c46conn(c *core.Ctx) {
 			continue
 		}
 		// every nil return is either after both addresses were resolved or under err == ErrNoProxyProtocol
-		noHdr := core.HasGuard(r.Block(), func(g core.Guard) bool {
+		noHdr := nxHolds(r.Block(), func(g core.Guard) bool {
 			bo, ok := g.Cond.(*ssa.BinOp)
 			if !ok || bo.Op != token.EQL || !g.Pol {
 				return false
@@ -1111,7 +1183,7 @@ func c46conn(c *core.Ctx) {
 			kind = "no-header"
 		}
 		// LOCAL (v2) / UNKNOWN (v1) keep the socket's addresses
-		keep := !noHdr && resolved < 2 && core.AllEdgesGuarded(r.Block(), func(g core.Guard) bool {
+		keep := !noHdr && resolved < 2 && nxHolds(r.Block(), func(g core.Guard) bool {
 			call, _ := nxCallResult(g.Cond)
 			return call != nil && g.Pol && core.CallIs(&call.Call, c46pkg+".ProtocolVersionAndCommand.IsLocal", c46pkg+".AddressFamilyAndProtocol.IsUnspec")
 		})
@@ -1126,7 +1198,7 @@ func c46conn(c *core.Ctx) {
 	// the address block of a LOCAL header is to be ignored: no resolution of header addresses for LOCAL
 	for i, call := range core.Calls(chk, "net.ResolveTCPAddr") {
 		in := call.(ssa.Instruction)
-		guarded := core.HasGuard(in.Block(), func(g core.Guard) bool {
+		guarded := nxHolds(in.Block(), func(g core.Guard) bool {
 			gc, _ := nxCallResult(g.Cond)
 			if gc == nil {
 				return false
@@ -1279,7 +1351,7 @@ func c46conn(c *core.Ctx) {
 			switch {
 			case nxIsFieldAddr(u.X, fBuf):
 				nread++
-				guarded := core.HasGuard(in.Block(), func(g core.Guard) bool {
+				guarded := nxHolds(in.Block(), func(g core.Guard) bool {
 					bo, ok := g.Cond.(*ssa.BinOp)
 					if !ok {
 						return false
